@@ -263,6 +263,11 @@ func (k Keeper) UpdateTokenPairERC20(ctx sdk.Context, erc20Addr, newERC20Addr co
 		return types.TokenPair{}, sdkerrors.Wrapf(types.ErrInternalTokenPair, "token %s not registered", erc20Addr)
 	}
 
+	// the new address must not belong to another token pair
+	if k.IsERC20Registered(ctx, newERC20Addr) {
+		return types.TokenPair{}, sdkerrors.Wrapf(types.ErrTokenPairAlreadyExists, "token ERC20 contract already registered: %s", newERC20Addr.String())
+	}
+
 	pair, found := k.GetTokenPair(ctx, id)
 	if !found {
 		return types.TokenPair{}, sdkerrors.Wrapf(types.ErrTokenPairNotFound, "token '%s' not registered", erc20Addr)
